@@ -9,7 +9,11 @@ def run(c):
         rule=("random DAGs (<=7 jobs, deeper chains, about a third of the processes failing), failures delivered "
               "before, while and after dependents are submitted (submissions interleaved with completions), markers, "
               "tokens, experiment.wait() mid-way and at exit; non-trivial = at least two jobs and one dependency; "
-              "distinct by (workload, schedule)"))
+              "distinct by (workload, schedule); + directed probes with real job processes: every way of leaving "
+              "the task body (status 0, non-zero, multiples of 256, wait status of os.system, exception, message) "
+              "through the local launcher and the Slurm launcher"))
+    schedlib.run_proc_probes(c, "C07", [dict(mode="exit", hows=schedlib.LEAVE_EXIT),
+                                        dict(mode="slurm", sacct="steps-after", hows=["return", "exit:3", "exit:256", "raise"])])
 
 
 if __name__ == "__main__":
